@@ -103,6 +103,7 @@ func run(c *vf.Ctx) {
 	part4(c, keys, hostSigner, caPriv)
 	part5(c, keys, caPriv)
 	partH(c, keys, sigs)
+	partO(c, keys) // last: on a defective tree it can leave process-wide state damaged
 }
 
 // ---- keys -------------------------------------------------------------------------
@@ -1078,4 +1079,66 @@ func part5(c *vf.Ctx, keys []*keyEnt, caPriv ed25519.PrivateKey) {
 	c.Eval(1)
 	_ = ecdsa.PublicKey{}
 	_ = rsa.PublicKey{}
+}
+
+// partO: slices handed out by the package belong to the caller. The list returned by
+// Algorithms() (plain signers, certificate signers, restricted signers) is overwritten by the
+// caller - the usual in-place filter idiom does that - and afterwards every key must still sign
+// with its default and with every algorithm it listed, Verify must still accept those
+// signatures and a signer must still report its original list.
+func partO(c *vf.Ctx, keys []*keyEnt) {
+	type ent struct {
+		k    *keyEnt
+		list []string
+	}
+	var ents []ent
+	for _, k := range keys {
+		if k.signer == nil {
+			continue
+		}
+		ms, ok := k.signer.(ssh.MultiAlgorithmSigner)
+		if !ok {
+			continue
+		}
+		got := ms.Algorithms()
+		ents = append(ents, ent{k, append([]string(nil), got...)})
+		for i := range got {
+			got[i] = "overwritten-by-the-caller"
+		}
+		got = got[:0]
+		_ = got
+	}
+	data := []byte("message signed after the caller reused the algorithm list")
+	for _, e := range ents {
+		ms := e.k.signer.(ssh.MultiAlgorithmSigner)
+		c.Eval(1)
+		c.Nontrivial("O/" + e.k.name)
+		if again := ms.Algorithms(); fmt.Sprint(again) != fmt.Sprint(e.list) {
+			c.Violation("Algorithms() changes after a caller overwrote the list it was given earlier", map[string]any{"key": e.k.name, "before": e.list, "after": again})
+			continue
+		}
+		algos := append([]string{""}, e.list...)
+		for _, a := range algos {
+			var sig *ssh.Signature
+			var err error
+			if a == "" {
+				sig, err = e.k.signer.Sign(rand.Reader, data)
+			} else {
+				sig, err = ms.SignWithAlgorithm(rand.Reader, data, a)
+			}
+			if err != nil {
+				c.Violation("signing fails after a caller overwrote the list returned by Algorithms()", map[string]any{"key": e.k.name, "algorithm": a, "err": err.Error()})
+				break
+			}
+			if err := e.k.pub.Verify(data, sig); err != nil {
+				c.Violation("Verify rejects a valid signature after a caller overwrote the list returned by Algorithms()", map[string]any{"key": e.k.name, "algorithm": a, "format": sig.Format, "err": err.Error()})
+				break
+			}
+			bogus := &ssh.Signature{Format: "overwritten-by-the-caller", Blob: sig.Blob}
+			if err := e.k.pub.Verify(data, bogus); err == nil {
+				c.Violation("Verify accepts a made-up signature format after a caller overwrote the list returned by Algorithms()", map[string]any{"key": e.k.name})
+				break
+			}
+		}
+	}
 }
